@@ -201,6 +201,54 @@ package store
 //@   modifies alloc
 //@ func callback.arCB(self ref, p res.Pattern, qc QueryChange) (rids []string)
 //@   modifies alloc
+//@ # ---- the shipped query transformers: ids to references, element by element (the id mapping itself is client code)
+//@ func callback.idCB(self ref, id string) (rid string)
+//@   ensures true
+//@ func (t IDToRIDCollectionTransformer) TransformResult(v interface{}) (out interface{}, err error)
+//@   requires t != nil
+//@   requires small: imp(typeIs(v, "[]string"), 0 <= len(unbox(v, "[]string")) && len(unbox(v, "[]string")) <= 1073741824)
+//@   modifies alloc
+//@   callback t idCB
+//@   ensures kind: isNil(err) == typeIs(v, "[]string")
+//@   ensures same.length: imp(isNil(err), typeIs(out, "[]res.Ref") && len(unbox(out, "[]res.Ref")) == len(unbox(v, "[]string")))
+//@   loop 1 invariant -1 <= rangeindex && rangeindex < len(ids) + 0 && len(refs) == len(ids) && ref(refs) >= old(nextRef())
+//@ func (t IDToRIDCollectionTransformer) TransformEvents(evs []ResultEvent) (out []ResultEvent, err error)
+//@   requires t != nil
+//@   modifies all
+//@   callback t idCB
+//@   ensures in.place: imp(isNil(err), same(out, evs))
+//@   loop 1 invariant -1 <= rangeindex && rangeindex < len(evs) + 0
+//@ # ---- get on the query handler: exactly one response (or a panic, answered by the request machinery), and the value
+//@ # served is the result of the query store for the query the request handler returned
+//@ trusted func (r res.GetRequest) ParseQuery() (q url.Values)
+//@   modifies alloc
+//@ trusted func (r res.GetRequest) QueryModel(model interface{}, query string)
+//@   modifies ghost.gresp, ghost.gkind, ghost.gval
+//@   ensures gresp == old(gresp) + 1 && gkind == 1 && same(gval, model)
+//@ trusted func (r res.GetRequest) QueryCollection(collection interface{}, query string)
+//@   modifies ghost.gresp, ghost.gkind, ghost.gval
+//@   ensures gresp == old(gresp) + 1 && gkind == 2 && same(gval, collection)
+//@ func (o *queryHandler) getResource(r res.GetRequest)
+//@   requires o != nil && !isNil(r) && !isNil(o.qs)
+//@   modifies ghost.gresp, ghost.gkind, ghost.gval, alloc
+//@   may_panic
+//@   callback rh rhCB
+//@   ensures once: gresp == old(gresp) + 1
+//@   ensures kind: imp(gkind == 1, o.typ == 1) && imp(gkind == 2, o.typ == 2)
+//@   ghost call GetRequest.Model#1 before :: assert served: same(arg_model, result)
+//@   ghost call GetRequest.Collection#1 before :: assert served: same(arg_collection, result)
+//@   ensures_on_panic unanswered: gresp == old(gresp) && o.typ != 1 && o.typ != 2
+//@ func (o *queryHandler) getQueryResource(r res.GetRequest)
+//@   requires o != nil && !isNil(r) && !isNil(o.qs) && o.qrh != nil
+//@   modifies ghost.gresp, ghost.gkind, ghost.gval, alloc
+//@   may_panic
+//@   callback qrh qrhCB
+//@   ensures once: gresp == old(gresp) + 1
+//@   ensures kind: imp(gkind == 1, o.typ == 1) && imp(gkind == 2, o.typ == 2)
+//@   # the normalised query returned by the handler is the one the response carries
+//@   ghost call GetRequest.QueryModel#1 before :: assert served: same(arg_model, result) && same(arg_query, norm) && len(norm) > 0
+//@   ghost call GetRequest.QueryCollection#1 before :: assert served: same(arg_collection, result) && same(arg_query, norm) && len(norm) > 0
+//@   ensures_on_panic unanswered: gresp == old(gresp)
 //@ func (o *queryHandler) errorf(format string, v []interface{})
 //@   requires o != nil && o.s != nil
 //@ func (o *queryHandler) resourceEvent(rid string, qc QueryChange) (rerr error)
@@ -233,7 +281,8 @@ package store
 //@ func IDTransformer$1(rid string, pathParams map[string]string) (id string)
 //@   ensures lookup: imp(hasKey(pathParams, tagName), same(id, pathParams[tagName]))
 //@ func IDTransformer$2(id string, v interface{}, p res.Pattern) (rid string)
-//@   modifies ghost.nrepl, alloc
+//@   requires sizes: len(p) <= 1073741824 && len(id) <= 1048576
+//@   modifies ghost.nrepl, ghost.rcov, ghost.rlv, alloc, bytes
 //@   # the resource id is the pattern with the tag replaced by Pattern.ReplaceTag (token-wise), in one pass
 //@   ensures by.pattern: nrepl == old(nrepl) + 1
 //@
